@@ -392,3 +392,30 @@ CHECKS = {
         "thorough": [T("TestC16", 16, 1500, steps=50, timeout=3000), T("TestC16Gov", 16, 1500, steps=50, timeout=3000)],
     },
 }
+
+
+# generator parts added after the rule texts above were written (seed rounds 12-14, DESIGN B.7)
+_ADDED = {
+    "C01": ("Episodes added: governance pause/resume of a chain's services (freeze+activate, approved / rejected update, rejected "
+            "logout, service freeze+activate by real votes) followed by IBTPs from and to the chain; signature storm blocks (3-40 "
+            "non-local transfers of the funded actors, every second to fourth with a flipped signature byte); xvm episodes (WASM "
+            "contract deployed and invoked in two or three later blocks)."),
+    "C08": ("One block in six is a signature storm: 20-300 further non-local transfers, every first to third with a flipped "
+            "signature byte, plus 2-12 non-local IBTPs whose proof does not verify, half of them with a bad signature as well."),
+    "C13": ("A flushed block may stay uncommitted while the next block writes, takes snapshots, reverts and ends transactions; "
+            "the Commit precedes the next flush, a reopen and (known finding KF-C13-query-between-flush-and-commit) prefix queries."),
+    "C16": ("Two cases in three have an unordered destination service chainB:u1 (with or without a blacklist entry) with three "
+            "pairs to it."),
+    "C17": ("The first pass has 26 well-formed privileged calls, five of them on chainD, whose admin set was reduced by an "
+            "approved update after registration."),
+    "C18": ("Commit mode 'overtaken report': the report of an earlier block arrives after the report of a later block with "
+            "higher nonces of the same account."),
+    "C19": ("Commit mode 'overtaken report': the report of an earlier block arrives after the report of a later block with "
+            "higher nonces of the same account; nothing may change."),
+    "C20": ("Sync: failure bursts (2-5 requests in a row fail whoever is asked). Raft fault model also has a replica that "
+            "receives nothing while its own messages arrive (deaf leader), log replication (MsgApp) lost for 300-900 ms while "
+            "votes and heartbeats arrive, and transactions handed to a surviving replica before the election and to the new "
+            "leader while it cannot replicate, optionally with timestamps older than everything in the pool."),
+}
+for _pid, _txt in _ADDED.items():
+    CHECKS[_pid]["rule"] = CHECKS[_pid]["rule"] + " " + _txt
